@@ -1,4 +1,4 @@
-CONSTANTS Carrier = "rtsp"
+CONSTANTS Carrier = "wsp"
  MaxHist = 40
  EmitAt = 99
 INIT Init
